@@ -95,7 +95,7 @@ func init() {
 		NotDecided:  "conflicting registrations on the global registries (they panic by policy); first use of objects the harness itself must touch before clients start (type lookup by name, New)",
 		Probes:      []string{"once-contended", "lock-parked", "descriptor-instances-compared", "inproc-scenarios", "process-scenarios", "global-registrations"},
 		FaultKinds:  []string{"sched-switch", "process-restart"},
-		Quick:       plan{Builds: []buildCfg{{Race: true, Share: 1}}, Secs: 35},
+		Quick:       plan{Builds: []buildCfg{{Race: true, Share: 1}}, Secs: 55},
 		Thorough:    plan{Builds: []buildCfg{{Race: true, Share: 3}, {Race: true, Tags: []string{"protolegacy"}, Share: 1}, {Race: false, Share: 1}}, Secs: 900},
 	}
 }
@@ -180,7 +180,7 @@ func init() {
 		NotDecided:                "second sentence for arbitrary unrelated pairs of inputs; it IS checked over the construction histories of one content: variants seen to encode identically must be proto.Equal in both argument orders",
 		Probes:                    []string{"variants-compared", "lazy-unexpanded-variants"},
 		FaultKinds:                []string{"map-order", "process-restart", "denormalised-wire"},
-		Quick:                     plan{Builds: []buildCfg{{Race: false, Share: 1}}, Secs: 25},
+		Quick:                     plan{Builds: []buildCfg{{Race: false, Share: 1}}, Secs: 40},
 		Thorough:                  plan{Builds: []buildCfg{{Race: false, Share: 3}, {Race: false, Tags: []string{"protolegacy"}, Share: 1}, {Race: false, Tags: []string{"protoopaque"}, Share: 1}}, Secs: 600},
 		IrreproducibleIsViolation: true,
 	}
@@ -196,7 +196,7 @@ func init() {
 		NotDecided:                "random schemas beyond the linked files",
 		Probes:                    []string{"plugin-binary-runs", "request-order-permutations"},
 		FaultKinds:                []string{"map-order", "process-restart"},
-		Quick:                     plan{Builds: []buildCfg{{Race: false, Share: 1}}, Secs: 30},
+		Quick:                     plan{Builds: []buildCfg{{Race: false, Share: 1}}, Secs: 45},
 		Thorough:                  plan{Builds: []buildCfg{{Race: false, Share: 1}}, Secs: 600},
 		IrreproducibleIsViolation: true,
 		Plugin:                    true,
